@@ -279,8 +279,17 @@ def _pool_init(modname, fname, isolate):
     _POOL_FN = (f, isolate)
 
 
+def _run_group(group):
+    f, _ = _POOL_FN
+    return [f(c) for c in group]
+
+
 def _pool_call(case):
     f, isolate = _POOL_FN
+    if isinstance(case, list):
+        # a group: the cases run one after the other in ONE fresh process, so that
+        # process-global state (caches, default rounding mode) carries over
+        return run_isolated(_run_group, case)
     if isolate:
         return run_isolated(f, case)
     try:
@@ -294,6 +303,17 @@ def run_impl(modname, fname, cases, isolate=True, procs=NCPU):
     fresh worker processes that imported quantity from /repo/src."""
     os.environ['PYTHONHASHSEED'] = '0'
     ctx = mp.get_context('spawn')
+    # consecutive cases with the same 'group' key run in one process
+    units, flat = [], cases
+    for c in cases:
+        g = c.get('group') if isinstance(c, dict) else None
+        if g is not None and units and isinstance(units[-1], list) and units[-1][0].get('group') == g:
+            units[-1].append(c)
+        elif g is not None:
+            units.append([c])
+        else:
+            units.append(c)
+    cases = units
     chunk = max(1, min(64, len(cases) // (procs * 4) or 1))
     # ProcessPoolExecutor (not mp.Pool): a worker that dies breaks the pool with
     # an exception instead of hanging the check forever
@@ -302,10 +322,14 @@ def run_impl(modname, fname, cases, isolate=True, procs=NCPU):
                                 initargs=(modname, fname, isolate)) as pool:
         out = list(pool.map(_pool_call, cases, chunksize=chunk))
     res = []
-    for tag, val in out:
+    for unit, (tag, val) in zip(cases, out):
         if tag != 'ok':
             raise RuntimeError(f"harness error in implementation runner: {val}")
-        res.append(val)
+        if isinstance(unit, list):
+            res.extend(val)
+        else:
+            res.append(val)
+    assert len(res) == len(flat)
     return res
 
 
